@@ -417,6 +417,9 @@ def menu():
         ('inner-group-then-outer-list', lambda: glom([[1, 2], [3, 4]], Group(Pipe(Group([T]), [T]))), [[1, 2], [3, 4]]),
         ('inner-group-then-outer-buckets', lambda: glom([[1, 2], [3], [5, 6]], Group(Pipe(Group(Count()), {T % 2: [T]}))), {0: [2, 2], 1: [1]}),
         ('inner-group-then-outer-aggregate', lambda: glom([[1, 2], [3], [5, 6]], Group(Pipe(Group(Count()), Sum()))), 5),
+        ('inner-group-ends-by-STOP-then-outer-list', lambda: glom([[1, 2], [3], [4, 5, 6]], Group(Pipe(Group(First()), [T]))), [1, 3, 4]),
+        ('inner-group-ends-by-limit-then-outer-list', lambda: glom([[1, 2], [3], [4, 5, 6]], Group(Pipe(Group(Limit(1, [T])), [T]))), [[1], [3], [4]]),
+        ('inner-group-ends-by-STOP-then-outer-buckets', lambda: glom([[1, 2], [3], [4, 5, 6]], Group(Pipe(Group(First()), {T % 2: [T]}))), {1: [1, 3], 0: [4]}),
         ('inner-group-wrapped-in-auto-then-outer-list', lambda: glom([[1, 2], [3, 4]], Group(Pipe(Auto(Group([T])), [T]))), [[1, 2], [3, 4]]),
         ('group-as-pipe-step-twice',
          (lambda: (lambda g: glom([[1, 2], [3]], [g]))(Group(Count()))), [2, 1]),
